@@ -275,6 +275,19 @@ def main():
                                     fail("continuation-retriggers-the-terminal-event-it-stopped-at", times=tts[:6], **base)
                             except Exception as e:
                                 fail("continuation-raised", error=repr(e)[:200], same_event=True, **base)
+    # (a') long runs: crossings at |t| >= 8, where the spacing of doubles exceeds an absolute tolerance of a few eps (defect F9b)
+    for span in ((0.0, 20.0), (0.0, -20.0)):
+        for s_ in (1.0, 1e3, 1e6):
+            for kind, c in ((0, 0.5), (1, -0.3)):
+                evs = [make_event(kind, c, s_)]
+                a = system("RK45CK", span, False, tol=1e-9)
+                cases[0] += 1
+                try:
+                    a.integrate(events=evs)
+                except Exception as e:
+                    fail("integration-with-events-raised", error=repr(e)[:200], scale=s_, kind=kind, span=list(span))
+                    continue
+                check_run(a, evs, span, dict(method="RK45CK", span=list(span), dense=False, scale=s_, kind=kind, family="long"), 1e-6, False, True)
     # (d) crossings exactly on step boundaries, fixed step (y' = 1): two events sharing a step, one root on the boundary
     def rhs1(t, y, **kw):
         return np.array([1.0])
